@@ -64,7 +64,9 @@ func New(mode Mode, t *tape.Tape, base, limit uint32) *Host {
 }
 
 func (h *Host) viol(class, msg string) {
-	if h.Violation == "" {
+	// once the simulated region is exhausted the real allocator hands out
+	// memory inside it: nothing observed after that point means anything
+	if h.Violation == "" && h.Trouble == "" {
 		h.VClass, h.Violation = class, msg
 	}
 }
@@ -189,8 +191,12 @@ func (h *Host) PreFree(mem []byte, ptr uint32) uint32 {
 		h.free[sz] = append(h.free[sz], ptr)
 	case SimQuarantine:
 		h.quar = append(h.quar, blk{ptr, sz})
+		// full scans at geometrically growing distances: every 64 releases while
+		// the quarantine is small, every len/8 once it is large (total cost stays
+		// linear in the number of releases)
 		h.quarCheck++
-		if h.quarCheck%64 == 0 {
+		if every := len(h.quar) / 8; h.quarCheck >= 64 && h.quarCheck >= every {
+			h.quarCheck = 0
 			h.CheckQuarantine(mem)
 		}
 	}
